@@ -437,13 +437,13 @@ class Sem:
     def synthetic_load(self, cell):
         return E("call", [E("cell", (), cell), UNKNOWN], "cw_storage_plus::Item::load")
 
-    def written_value(self, kind, cell, val):
+    def written_value(self, kind, cell, val, expand_ws=True):
         """the value a storage write stores, as an expression (alternatives merged by phi):
         for save: the saved value; for update: the closure's Ok result applied to the
         currently stored value"""
         w = self.w
         if kind == "write":
-            return w.ident(val) if val is not None else None
+            return w.ident(val, 0, expand_ws) if val is not None else None
         if kind == "update":
             clo = w.ident(val)
             if clo.op != "closure":
